@@ -9,6 +9,13 @@ def repo_commits(prefix):
     return [l.split()[0] for l in out.splitlines() if l.split(" ", 1)[1].startswith(prefix)]
 
 CLAIMS = {
+    "C16": dict(
+        level="exploration",
+        technique="stateful property-based testing with probe effects recording init / on_change_sample_rate / dt through generated add-track / change-rate / callback histories, plus metamorphic checks of seconds and hertz across a mid-stream rate change",
+        text="Histories of adding tracks (nested, send, main), dropping them, changing the device rate (8k..192k) and running callbacks in any order are audited through probe effects: at every process call dt and the last announced rate must be the rate in force. With a rate change at a generated callback, an index-coded sound must keep pitch (1.5 frames) and duration (one callback), a clock its speed (1e-9), a volume tween its duration (one callback), a delay its time (exact frame), a low-pass its corner gain (0.2 dB). Search with shrinking.",
+        note="The schedule 'rate read, rate changes, track enqueued' inside add_sub_track is represented by its sequential form (track queued, then change), which is the known finding excluded by construction; no H4 hook was needed.",
+        design="5/C16",
+    ),
     "C15": dict(
         level="exploration",
         technique="property-based testing with a reference formula plus metamorphic relations between renders (monotonicity along a ray, mirroring, rigid motion, strength 0, listener drop / slot reuse, tween end state, nesting) through the real manager",
